@@ -109,9 +109,7 @@ func K2() *Entry {
 	for _, s := range allScalars {
 		w := scalarWord[s]
 		fs = append(fs, F("One"+w, Sc(s)), F("Many"+w, Sc(s), Rep()))
-		if s != ir.Bytes {
-			fs = append(fs, F("Dict"+w, Sc(s), MapOf()))
-		}
+		fs = append(fs, F("Dict"+w, Sc(s), MapOf()))
 		fs = append(fs, F("Alt"+w, Sc(s), In(0)))
 	}
 	m := WithOneofs(M("Matrix", fs...), "Choice")
@@ -169,7 +167,8 @@ func K5() *Entry {
 		F("ManyMaybe", MsgT("Leaf"), Rep()), F("Dict", MsgT("Leaf"), MapOf(), NonNull()), F("DictMaybe", MsgT("Leaf"), MapOf()), F("Nothing", MsgT("Void")))
 	top := M("Top", F("Id", JSON("id")), F("One", MsgT("Mid"), NonNull()), F("Maybe", MsgT("Mid")), F("Many", MsgT("Mid"), Rep(), NonNull()),
 		F("ManyMaybe", MsgT("Mid"), Rep()), F("Dict", MsgT("Mid"), MapOf(), NonNull()), F("DictMaybe", MsgT("Mid"), MapOf()),
-		F("Nothing", MsgT("Void")), F("NothingValue", MsgT("Void"), NonNull()))
+		F("Nothing", MsgT("Void")), F("NothingValue", MsgT("Void"), NonNull()),
+		F("Nothings", MsgT("Void"), Rep()), F("NothingValues", MsgT("Void"), Rep(), NonNull()), F("NothingDict", MsgT("Void"), MapOf()), F("NothingValueDict", MsgT("Void"), MapOf(), NonNull()))
 	f := file("k5", top, mid, leaf, M("Void"))
 	AutoComments(f)
 	return &Entry{Name: "k5", File: f, Cfg: BaseConfig("Top"), Tags: []string{"msg-matrix", "empty-msg", "depth3"}}
@@ -308,6 +307,12 @@ func K11(which int) *Entry {
 		f := file("k11c", M("VoidMap", F("Name"), F("Voids", MsgT("Void"), MapOf())), M("Void"))
 		AutoComments(f)
 		return &Entry{Name: "k11c", File: f, Cfg: BaseConfig("VoidMap"), Tags: []string{"map-empty-msg"}}
+	case 4:
+		// by-value durations as oneof branches
+		m := WithOneofs(M("SpanPick", F("Name"), F("Text", In(0)), F("SpanInt", StdDurInt(), In(0)), F("SpanCast", Sc(ir.Int64), Cast("Duration"), In(0))), "Pick")
+		f := file("k11e", m)
+		AutoComments(f)
+		return &Entry{Name: "k11e", File: f, Cfg: BaseConfig("SpanPick"), Tags: []string{"oneof-by-value-duration"}}
 	default:
 		// oneof inside an embedded message
 		inner := WithOneofs(M("Inner", F("InnerName"), F("Left", In(0)), F("Right", Sc(ir.Int64), In(0))), "Side")
@@ -324,4 +329,4 @@ func Curated() []*Entry {
 }
 
 // Exotic returns the isolated shapes (K11).
-func Exotic() []*Entry { return []*Entry{K11(0), K11(1), K11(2), K11(3)} }
+func Exotic() []*Entry { return []*Entry{K11(0), K11(1), K11(2), K11(3), K11(4)} }
